@@ -156,10 +156,146 @@ let run_vars (p : sexp) : string =
       " once=" ^ (if VarScopeProofs.once [] (VarScopeProofs.events funcs) then "true" else "false")
   | _ -> failwith "prog"
 
+(* ---- generated tables (C01/C07/C09) ----------------------------------------- *)
+let prim_names = IR.[Int8,"i8"; Int16,"i16"; Int32,"i32"; Int64,"i64"; Int128,"i128";
+  Uint8,"u8"; Uint16,"u16"; Uint32,"u32"; Uint64,"u64"; Uint128,"u128"; Usize,"usize"; Char8,"char8"; Bool,"bool"]
+let prim_of_string s = fst (List.find (fun (_, n) -> n = s) prim_names)
+let binop_names = IR.[Add,"+"; Subtract,"-"; Multiply,"*"; Divide,"/"; Modulo,"%"; BitwiseAnd,"&";
+  BitwiseOr,"|"; BitwiseXor,"^"; ShiftLeft,"<<"; ShiftRight,">>"]
+let unop_names = IR.[Negative,"-"; BitwiseComplement,"!"]
+let cmpop_names = IR.[Equals,"=="; DoesNotEqual,"!="; IsGreater,">"; IsGE,">="; IsLess,"<"; IsLE,"<="]
+let instr_name (i : IR.instr) = match i with
+  | IR.IAdd -> "add" | IR.ISub -> "sub" | IR.IMul -> "mul" | IR.ISDiv -> "sdiv" | IR.IUDiv -> "udiv"
+  | IR.ISRem -> "srem" | IR.IURem -> "urem" | IR.IAnd -> "and" | IR.IOr -> "or" | IR.IXor -> "xor"
+  | IR.IShl -> "shl" | IR.ILShr -> "lshr" | IR.IAShr -> "ashr" | IR.IGEP -> "getelementptr"
+  | IR.INeg -> "neg" | IR.INot -> "not" | IR.IAddNSW -> "add nsw" | IR.IAddNUW -> "add nuw"
+  | IR.ISubNSW -> "sub nsw" | IR.ISubNUW -> "sub nuw" | IR.IMulNSW -> "mul nsw" | IR.IMulNUW -> "mul nuw"
+  | IR.ISDivExact -> "sdiv exact" | IR.INegNSW -> "neg nsw" | IR.IOther -> "other"
+let pred_name (p : IR.pred) = match p with
+  | IR.PEq -> "eq" | IR.PNe -> "ne" | IR.PSgt -> "sgt" | IR.PUgt -> "ugt" | IR.PSlt -> "slt" | IR.PUlt -> "ult"
+  | IR.PSge -> "sge" | IR.PUge -> "uge" | IR.PSle -> "sle" | IR.PUle -> "ule"
+let cast_name (c : IR.cast) = match c with
+  | IR.CTrunc -> "trunc" | IR.CSExt -> "sext" | IR.CZExt -> "zext" | IR.CNone -> "none"
+
+let run_tables (usize_bits : int) : string =
+  let ub = z_of_int usize_bits in
+  let buf = Buffer.create 4096 in
+  let add s = Buffer.add_string buf s; Buffer.add_char buf ';' in
+  List.iter (fun (t, tn) ->
+    let sg = TypeTables.vt_is_signed t in
+    List.iter (fun (op, on) ->
+      let ok = IR.mem_operand (IR.OPrim t) (ResolverTables.binop_valid_types op) in
+      add (Printf.sprintf "B %s %s %b %s" on tn ok (instr_name (LowerTables.select_binop op sg)))) binop_names;
+    List.iter (fun (op, on) ->
+      let ok = IR.mem_operand (IR.OPrim t) (ResolverTables.unop_valid_types op) in
+      add (Printf.sprintf "U %s %s %b %s" on tn ok (instr_name (LowerTables.select_unop op sg)))) unop_names;
+    List.iter (fun (op, on) ->
+      let ok = IR.mem_operand (IR.OPrim t) (ResolverTables.cmpop_valid_types op) in
+      add (Printf.sprintf "C %s %s %b %s" on tn ok (pred_name (LowerTables.select_icmp op sg)))) cmpop_names;
+    List.iter (fun (d, dn) ->
+      let si = TypeTables.vt_is_integral t and di = TypeTables.vt_is_integral d in
+      let ok = ResolverTables.is_valid_primitive_conversion t d si di in
+      let c = LowerTables.select_cast t d si di sg (TypeTables.vt_bits ub t) (TypeTables.vt_bits ub d) in
+      add (Printf.sprintf "K %s %s %b %s" tn dn ok (match c with Some c -> cast_name c | None -> "unreachable"))) prim_names;
+    add (Printf.sprintf "T %s %s %s %s %b %b" tn (string_of_z (TypeTables.vt_min t)) (string_of_z (TypeTables.vt_max t))
+           (string_of_z (TypeTables.vt_bits ub t)) sg (TypeTables.vt_is_integral t))
+  ) prim_names;
+  Buffer.contents buf
+
+(* ---- interpreter (C01 exec stream) -------------------------------------------- *)
+let binop_of_string s = fst (List.find (fun (_, n) -> n = s) binop_names)
+let unop_of_string s = fst (List.find (fun (_, n) -> n = s) unop_names)
+let cmpop_of_string s = fst (List.find (fun (_, n) -> n = s) cmpop_names)
+
+let rec sem_ty (s : sexp) : Sem.ty =
+  match s with
+  | A n -> Sem.TPrim (prim_of_string n)
+  | L [A "arr"; A n; t] -> Sem.TArr (z_of_string n, sem_ty t)
+  | L [A "ptr"; t] -> Sem.TPtr (sem_ty t)
+  | L [A "view"; t] -> Sem.TView (sem_ty t)
+  | L [A "struct"; A n] -> Sem.TStruct (intern n)
+  | _ -> failwith "ty"
+
+let hex_bytes (s : string) : coq_N list =
+  let n = String.length s / 2 in
+  List.init n (fun i -> n_of_int (int_of_string ("0x" ^ String.sub s (2 * i) 2)))
+
+let rec sem_expr (s : sexp) : Sem.expr =
+  match s with
+  | L [A "lit"; A t; A v] -> Sem.ELit (prim_of_string t, z_of_string v)
+  | L [A "var"; A x] -> Sem.EVar (intern x)
+  | L [A "idx"; e; i] -> Sem.EIndex (sem_expr e, sem_expr i)
+  | L [A "mem"; e; A m] -> Sem.EMember (sem_expr e, intern m)
+  | L [A "bin"; A op; l; r] -> Sem.EBin (binop_of_string op, sem_expr l, sem_expr r)
+  | L [A "un"; A op; e] -> Sem.EUn (unop_of_string op, sem_expr e)
+  | L [A "cast"; A t; e] -> Sem.ECast (prim_of_string t, sem_expr e)
+  | L [A "len"; e] -> Sem.ELen (sem_expr e)
+  | L [A "addr"; e] -> Sem.EAddr (n_of_int 1, sem_expr e)
+  | L (A "call" :: A f :: args) -> Sem.ECall (intern f, List.map sem_expr args)
+  | L (A "arrlit" :: es) -> Sem.EArrLit (List.map sem_expr es)
+  | L (A "slit" :: A n :: fs) ->
+      Sem.EStructLit (intern n, List.map (function L [A m; e] -> (intern m, sem_expr e) | _ -> failwith "slit") fs)
+  | L [A "sizeof"; t] -> Sem.ESizeOf (sem_ty t)
+  | L [A "paren"; e] -> Sem.EParen (sem_expr e)
+  | _ -> failwith "expr"
+
+let rec sem_stmt (s : sexp) : Sem.stmt =
+  match s with
+  | L [A "decl"; A x; t; A "none"] -> Sem.SDecl (intern x, sem_ty t, None)
+  | L [A "decl"; A x; t; e] -> Sem.SDecl (intern x, sem_ty t, Some (sem_expr e))
+  | L [A "assign"; l; r] -> Sem.SAssign (sem_expr l, sem_expr r)
+  | L [A "assignaddr"; A x; r] -> Sem.SAssignAddr (n_of_int 1, intern x, sem_expr r)
+  | L [A "if"; L [A "cmp"; A op; l; r]; t] -> Sem.SIf (Sem.Cmp (cmpop_of_string op, sem_expr l, sem_expr r), sem_stmt t, None)
+  | L [A "if"; L [A "cmp"; A op; l; r]; t; e] -> Sem.SIf (Sem.Cmp (cmpop_of_string op, sem_expr l, sem_expr r), sem_stmt t, Some (sem_stmt e))
+  | L [A "goto"; A l] -> Sem.SGoto (intern ("label:" ^ l))
+  | L [A "label"; A l] -> Sem.SLabel (intern ("label:" ^ l))
+  | L (A "block" :: ss) -> Sem.SBlock (List.map sem_stmt ss)
+  | L [A "loop"] -> Sem.SLoop
+  | L (A "call" :: A f :: args) -> Sem.SCall (intern f, List.map sem_expr args)
+  | L (A "print" :: items) ->
+      Sem.SPrint (List.map (function L [A "str"; A h] -> Sem.PStr (hex_bytes h) | L [A "str"] -> Sem.PStr [] | e -> Sem.PExpr (sem_expr e)) items)
+  | _ -> failwith "stmt"
+
+let sem_func (s : sexp) : Sem.func =
+  match s with
+  | L [A "fn"; A name; L ps; ret; L body; res] ->
+      { Sem.fname = intern name;
+        Sem.fparams = List.map (function L [A x; t] -> (intern x, sem_ty t) | _ -> failwith "param") ps;
+        Sem.fret = (match ret with A "void" -> None | t -> Some (sem_ty t));
+        Sem.fbody = List.map sem_stmt body;
+        Sem.fresult = (match res with A "none" -> None | e -> Some (sem_expr e)) }
+  | _ -> failwith "fn"
+
+let rec nat_of_int (i : int) : Datatypes.nat = if i <= 0 then Datatypes.O else Datatypes.S (nat_of_int (i - 1))
+
+let escape_bytes (bs : coq_N list) : string =
+  let b = Buffer.create 64 in
+  List.iter (fun c -> let c = int_of_n c in
+    if c = 10 then Buffer.add_string b "\\n" else if c = 9 then Buffer.add_string b "\\t"
+    else if c = 13 then Buffer.add_string b "\\r" else if c = 92 then Buffer.add_string b "\\\\"
+    else if c >= 32 && c <= 126 then Buffer.add_char b (Char.chr c)
+    else Buffer.add_string b (Printf.sprintf "\\x%02x" c)) bs;
+  Buffer.contents b
+
+let run_exec (fuel : int) (p : sexp) : string =
+  match p with
+  | L [A "prog"; L (A "structs" :: ss); L (A "consts" :: cs); L (A "funcs" :: fs)] ->
+      let prog = { Sem.structs = List.map (function L (A "s" :: A n :: ms) ->
+                       { Sem.sname = intern n; Sem.smembers = List.map (function L [A m; t] -> (intern m, sem_ty t) | _ -> failwith "member") ms }
+                     | _ -> failwith "struct") ss;
+                   Sem.consts = List.map (function L [A "c"; A x; t; e] -> ((intern x, sem_ty t), sem_expr e) | _ -> failwith "const") cs;
+                   Sem.funcs = List.map sem_func fs } in
+      (match Sem.run_main (nat_of_int fuel) prog (intern "main") with
+       | Sem.Ok (code, out) -> "exit=" ^ string_of_z code ^ " out=" ^ escape_bytes out
+       | Sem.UB -> "UB" | Sem.Stuck -> "STUCK" | Sem.OutOfFuel -> "FUEL")
+  | _ -> failwith "prog"
+
 let dispatch (stream : string) (x : sexp) : string =
   match stream with
   | "labels" -> run_labels x
   | "vars" -> run_vars x
+  | "exec" -> run_exec 20000 x
+  | "tables" -> run_tables (match x with A n -> int_of_string n | _ -> 64)
   | "syntax" -> run_syntax true x
   | "syntax-pinned" -> run_syntax false x
   | _ -> failwith ("unknown stream " ^ stream)
